@@ -265,7 +265,7 @@ Qed.
 
 Lemma wait_rpc_answered sc s c v0 u f use_conn :
   Answered s c u f ->
-  exists v, wait_rpc sc s c v0 u use_conn = (s, v, Ok tt, sc) /\
+  exists v, wait_rpc sc s c v0 u use_conn [] = (s, v, Ok tt, sc) /\
             get_chan (s_chans s) c = Some v /\ exists l, resp_get (c_resp v) u = Some (f :: l).
 Proof.
   intros (v & l & Hreg & Hr). exists v.
@@ -291,7 +291,7 @@ Theorem wait_rpc_reply (P : sys -> Prop) : forall pre s c u names v tpre f tpost
   forallb (quiet c names) tpre = true -> in_names (f_name f) names = true ->
   (forall s0 cf, P s0 -> In cf (concat pre ++ tpre ++ (c, f) :: tpost) -> P (deliver s0 cf)) ->
   P s ->
-  exists s' v', wait_rpc (pre ++ (tpre ++ (c, f) :: tpost) :: rest) s c v u false = (s', v', Ok tt, rest) /\
+  exists s' v', wait_rpc (pre ++ (tpre ++ (c, f) :: tpost) :: rest) s c v u false [] = (s', v', Ok tt, rest) /\
                 get_chan (s_chans s') c = Some v' /\ (exists l, resp_get (c_resp v') u = Some (f :: l)) /\
                 Shape s' c rq ks /\ P s'.
 Proof.
@@ -318,7 +318,7 @@ Proof.
     { intros s0 cf H0 Hin. apply HP; [exact H0|]. cbn [concat]. rewrite <- app_assoc.
       apply in_or_app. now right. }
     (* the object handed on is refreshed from the registry at the next turn *)
-    assert (Hcur : forall sc, wait_rpc sc (deliver_all s t) c v u false = wait_rpc sc (deliver_all s t) c v1 u false).
+    assert (Hcur : forall sc, wait_rpc sc (deliver_all s t) c v u false [] = wait_rpc sc (deliver_all s t) c v1 u false []).
     { intros sc. destruct sc; cbn [wait_rpc]; unfold cur; rewrite (w_reg _ _ _ _ _ W1); reflexivity. }
     rewrite Hcur, E. eauto.
 Qed.
@@ -468,4 +468,33 @@ Proof.
     unfold mem_tag. rewrite existsb_app. cbn. rewrite (proj2 (Lib.ListX.bytes_eqb_spec t t) eq_refl).
     now rewrite orb_true_r. }
   split; apply Hm.
+Qed.
+
+(* ---------- a returned message while a call waits ---------- *)
+(* the poll that meets a queued message error holds it back and goes on waiting *)
+Theorem wait_rpc_holds_return tick sc s c v u held s1 v1 e :
+  (forall l, resp_get (c_resp (cur s c v)) u = Some l -> l = []) ->
+  chan_check s c (cur s c v) = (s1, v1, Raise e) -> e_kind e = EMsg ->
+  wait_rpc (tick :: sc) s c v u false held = wait_rpc sc (deliver_all s1 tick) c v1 u false (held ++ [e]).
+Proof.
+  intros Hresp E Hk. cbn [wait_rpc].
+  destruct (resp_get (c_resp (cur s c v)) u) as [[|f l]|] eqn:Er;
+    [ | specialize (Hresp _ eq_refl); discriminate | ];
+    unfold adapter_check; rewrite E, Hk; reflexivity.
+Qed.
+
+(* once the reply is in, the first error held back is raised, the request is forgotten (so no
+   reply can be outstanding for it) and the other errors are back at the head of the queue *)
+Theorem wait_rpc_reply_then_return sc s c v0 v u f l h more :
+  get_chan (s_chans s) c = Some v -> resp_get (c_resp v) u = Some (f :: l) ->
+  exists s' v', wait_rpc sc s c v0 u false (h :: more) = (s', v', Raise h, sc) /\
+                get_chan (s_chans s') c = Some v' /\
+                c_errs v' = more ++ c_errs v /\
+                c_req v' = req_del_uuid (c_req v) u /\ c_resp v' = resp_del (c_resp v) u /\
+                s_out s' = s_out s.
+Proof.
+  intros Hreg Hr. destruct sc; cbn [wait_rpc]; unfold cur; rewrite Hreg, Hr;
+    (eexists _, _; split; [reflexivity|]; split; [eapply upd_same; exact Hreg|]; cbn;
+     repeat split; auto;
+     match goal with |- context [upd s c ?x] => now destruct (upd_conn s c x) as (_ & _ & O & _) end).
 Qed.
